@@ -294,7 +294,20 @@ def _string_evaluator(repo, siblings=None):
         if repo.has_func(IO, nm):
             helpers[nm] = repo.func(IO, nm)
 
+    def modconst(d):
+        # a module-level constant of io.py (e.g. a compiled pattern hoisted out of a parser) is evaluated like any other expression
+        if "." not in d:
+            try:
+                v = repo.module_assign(IO, d)
+            except Exception:
+                raise Unknown("unbound name %s" % d)
+            return Ev({}, None, hook).ev(v)
+        raise Unknown(d)
+
     class Ev(Evaluator):
+        def __init__(self, env=None, class_attr=None, call=None, attr=None):
+            Evaluator.__init__(self, env, class_attr or modconst, call, attr)
+
         def e_Subscript(self, n):
             b = self.ev(n.value)
             if isinstance(n.slice, ast.Slice):
